@@ -88,7 +88,7 @@ def detect(pid, n, checks, tier):
         t0 = time.time()
         rc, o = sh(f"/verif/tools/detect.sh {c} {diff} {tier} {pid}m{n}{c}", timeout=7200)
         lines = o.strip().splitlines()
-        viol = [l for l in lines if l.startswith("VIOLATION")]
+        viol = [l for l in lines if l.startswith("VIOLATION") or (l.startswith("violations=") and l != "violations=0")]
         results.append({"check": c, "tier": tier, "exit": rc, "detected": rc == 1 and bool(viol), "lines": [l[:260] for l in lines[:8]], "wall_s": round(time.time() - t0, 1)})
     p = f"{out}/m{n}.det.json"
     old = json.load(open(p)) if os.path.exists(p) else []
